@@ -33,6 +33,36 @@ CHECKS = {
  "C12": ("model_checking", "5 (C12)", "explicit-state BFS over writer fill states x io::Write of every length 0..=40; reader BFS to fixpoint with io::Read of every length 0..=40",
          "Every starting bit offset x every slice length on every word size (writer) and every reachable reader state x every length (reader), against the byte-in-stream-order model.",
          "Trusted: reference model; two byte patterns per length."),
+ "C10": ("exploration", "5 (C10)", "complete enumeration of identifiers x dispatcher kinds x {write,read,len} on a value grid, dispatcher vs direct trait method",
+         "Complete over the identifier space (all 51 constants and aliases, every enumeration variant with parameters 0..=12 and large ones) and over the dispatcher kinds; values from the boundary grid. Bytes, lengths, values and end positions through each dispatcher are compared with the direct method.",
+         "Trusted: the direct trait methods as specification (their correctness is C03/C04/C06); ConstCode identifiers are looked up by the NAME of the constant."),
+ "C11": ("model_checking", "5 (C11)", "deviation-bounded exhaustive exploration of the wrapped Read/Write's answers (short counts, Interrupted, errors) + BFS of the adapter over a seekable Cursor",
+         "Every schedule of environment answers with at most 2 (thorough 3) deviations from the default, at every call index, for all word sizes and 1-3 words; plus explicit-state BFS of word positions over a Cursor. Exhaustive within the deviation bound.",
+         "Trusted: the environment alphabet matches what std::io::Read/Write permit."),
+ "C13": ("model_checking", "5 (C13)", "explicit-state BFS to the fixpoint over the real memory word streams vs Vec+cursor model, cross-checked by stateright's BFS checker (state counts must agree)",
+         "All reachable states from every initial array of length <= 3 over a 3-letter alphabet for four stream types x five word types x owned/borrowed storage; two independent engines.",
+         "Trusted: Vec+cursor model; growth capped at 5 words and zero-extended reads at len+3 to close the space."),
+ "C14": ("model_checking", "5 (C14)", "reader BFS (fixpoint) and writer BFS (depth 3) through the Count/Dbg wrappers with the full trait surface; counters checked after every transition",
+         "Every reachable wrapped-reader state x every trait method reachable through the wrapper (including table-parameterised codes and omega, copies), and writer histories to depth 3 including flushes; counters and values compared with the model after every step.",
+         "Trusted: reference model; padding written by flush is not counted as written bits."),
+ "C15": ("model_checking", "5 (C15)", "loom: all interleavings (preemption bound 3, unbounded for the smallest models) of 2-3 threads through one shared wrapper; plus complete enumeration of multisets <= 4 over 10 values x splits x merge forms",
+         "Concurrent half explored exhaustively by loom within the stated preemption bounds with the library's own Mutex replaced by loom's (cfg hook); sequential half complete over 1001 multisets, all 3-way splits and five merge forms.",
+         "Trusted: loom's scheduler/memory model; reference lengths as cost (cross-checked against actual written sizes for short codewords)."),
+ "C16": ("exploration", "5 (C16)", "complete enumeration of variants x parameters, identifiers 0..=80, a malformed-text grammar, and all pairs of codes that compare equal",
+         "Finite spaces enumerated completely (names, identifiers, equivalence classes); malformed texts from a small grammar.",
+         "Trusted: the oracle does not constrain trailing text after a valid parameter."),
+ "C17": ("exploration", "5 (C17)", "complete enumeration of the 8/16-bit (thorough: 32-bit) types, dense windows for wider types, vs closed formulas",
+         "Exhaustive for 8 and 16 bits (and 32 bits in the thorough tier); windows of 2^12 (2^16) around 0, MIN, MAX and every power of two for 32/64/128-bit and pointer-size types.",
+         "Trusted: the closed formulas of the statement."),
+ "C18": ("exploration", "5 (C18)", "complete enumeration of all terminated byte strings of length <= 3, all values below 2^21 and length-step boundaries; io functions vs bit-stream traits vs reference",
+         "Completeness decided on all 2 113 664 strings of length <= 3; agreement of io and bit-stream variants on the value grid for every stream endianness and word size.",
+         "Trusted: the offset definition of the complete code in the module documentation."),
+ "C19": ("model_checking", "5 (C19)", "the same reduced state-space explorations run in several builds of the library (features x profiles); all must match the model, digests must agree; complete dirty-bit sweep of write_bits",
+         "Quick: 3 builds (default, checks+no_copy_impls, checks+debug assertions); thorough: all 8 of the matrix. Each runs writer BFS, reader BFS to fixpoint and code streams on clean arguments; the argument check is swept over every n and every single dirty bit.",
+         "Trusted: same toolchain/host for all variants."),
+ "C20": ("exploration", "5 (C20)", "bounded-exhaustive: monotonicity and exact Kraft sums of all length functions; change-point iterator on all library length functions and ALL <=3-step functions on a 39-point grid with a call budget",
+         "Dense prefixes (2^16 / 2^20) and windows around powers of two for monotonicity and Kraft; the iterator is run on 10 701 synthetic step functions and every library length function, with termination decided by a call budget.",
+         "Trusted: the call budget (200 000 evaluations) separates termination from non-termination."),
 }
 
 NOT_YET = {
